@@ -28,9 +28,9 @@ structure FD where
   dep : Rel := []
   deriving Repr, Inhabited
 
-/-- the cross product added to `depends` -/
+/-- the cross product added to `depends` (a set: pairs already present are not repeated) -/
 def crossAdd (d : Rel) (srcs tgts : List Nat) : Rel :=
-  d ++ srcs.flatMap (fun s => tgts.map (fun t => (s, t)))
+  d ++ ((srcs.flatMap (fun s => tgts.map (fun t => (s, t)))).eraseDups.filter (fun p => !d.contains p))
 
 /-- `add_from(a, b, recursive)` with `with_dependencies` on; `tobj` is the
 result of `transitive_objects(b, from)` on the graph that already contains the
